@@ -1006,13 +1006,22 @@ func (w *World) produce(parent *blockRec, slot uint64) (*blockRec, error) {
 		if w.cfg.has("exits") && (w.rng.Chance(1, 3) || nExits > 1) && epoch >= uint64(w.spec.SHARD_COMMITTEE_PERIOD) {
 			v := w.rng.Intn(w.cfg.Validators)
 			if !w.exited[v] && !w.slashedV[v] && !busy[v] && w.activeAt(st, v, epoch) && w.notExiting(st, v, epoch) && uint64(len(exits)) < uint64(w.spec.MAX_VOLUNTARY_EXITS) {
-				ex := phase0.VoluntaryExit{Epoch: common.Epoch(epoch), ValidatorIndex: common.ValidatorIndex(v)}
+				// the exit may have been signed some epochs ago (its epoch only has to be reached): it is
+				// signed under the version in force in ITS epoch (before deneb), which may be the previous one
+				exEpoch := epoch
+				if back := uint64(w.rng.Intn(4)); w.rng.Bool() && epoch >= w.cfg.StartEpoch+back {
+					exEpoch = epoch - back
+				}
+				if common.Epoch(exEpoch) < fork.Epoch && fork.Epoch <= common.Epoch(epoch) && fork.PreviousVersion != fork.CurrentVersion {
+					w.res.Stat("probe_exit_dated_before_the_last_fork", 1)
+				}
+				ex := phase0.VoluntaryExit{Epoch: common.Epoch(exEpoch), ValidatorIndex: common.ValidatorIndex(v)}
 				exFork := fork
 				var dom [32]byte
 				if fidx >= 4 {
 					dom = computeDomain(common.DOMAIN_VOLUNTARY_EXIT, w.spec.CAPELLA_FORK_VERSION, w.gvr) // EIP-7044
 				} else {
-					dom = domainFor(exFork, w.gvr, common.DOMAIN_VOLUNTARY_EXIT, common.Epoch(epoch))
+					dom = domainFor(exFork, w.gvr, common.DOMAIN_VOLUNTARY_EXIT, common.Epoch(exEpoch))
 				}
 				sig := w.keys.sign(v, signingRoot(ex.HashTreeRoot(tree.GetHashFn()), dom))
 				exits = append(exits, phase0.SignedVoluntaryExit{Message: ex, Signature: sig})
